@@ -14,6 +14,12 @@ def parseInts : List String → Option (List Int)
     | some i, some l => some (i :: l)
     | _, _ => none
 
+def parseNats : List String → Option (List Nat)
+  | [] => some []
+  | w :: r => match w.toNat?, parseNats r with
+    | some i, some l => some (i :: l)
+    | _, _ => none
+
 def parseIntNatPairs : List String → Option (List (Int × Nat))
   | [] => some []
   | [_] => none
